@@ -42,6 +42,9 @@ type tapOp struct {
 // tapRecorder sits between the processor and the throttle and records what the
 // processor asked for.
 type tapRecorder struct {
+	// embedded, so that whatever else the throttle offers to its caller (optional interfaces the
+	// processor may look for) stays reachable through the tap as it is in main.go's wiring
+	*ThrottledRecorder
 	next   recorder.Recorder
 	frame  *int
 	starts []tapOp
@@ -157,7 +160,7 @@ func TestVerif_ThrottleComposition(t *testing.T) {
 			}
 			tc := &config.ThermalThrottler{Activate: true, BucketSize: time.Duration(cfg.BucketSecs) * time.Second, MinRefill: cfg.Refill}
 			th := NewThrottledRecorderWithClock(base, tc, cfg.MinSecs, r.events, r.clock, tCam{6, 5, cfg.FPS})
-			tap := &tapRecorder{next: th, frame: &frame, th: th}
+			tap := &tapRecorder{ThrottledRecorder: th, next: th, frame: &frame, th: th}
 			mc := &config.ThermalMotion{DynamicThreshold: dynamic, TempThresh: 2900, DeltaThresh: 10, CountThresh: 1, FrameCompareGap: 1, UseOneDiffOnly: true, TriggerFrames: rng.Range(1, 2), EdgePixels: 0}
 			rc := &recorder.RecorderConfig{MinSecs: minS, MaxSecs: maxS, PreviewSecs: prevS, Window: window.Window{NoWindow: true}}
 			cam := tCam{6, 5, cfg.FPS}
@@ -197,10 +200,13 @@ func TestVerif_ThrottleComposition(t *testing.T) {
 			// C01: whatever the throttle does, a file handed to storage holds consecutive frames
 			if prop == "C01" {
 				prev, open := -1, false
+				stored := map[int]int{} // frame -> number of the file that holds it
+				nfile := 0
 				for _, op := range base.ops {
 					switch {
 					case op.Op == 'S' && !op.Err:
 						open, prev = true, -1
+						nfile++
 					case op.Op == 'P':
 						open = false
 					case op.Op == 'W' && open:
@@ -209,8 +215,18 @@ func TestVerif_ThrottleComposition(t *testing.T) {
 							return
 						}
 						prev = op.Seq
+						// ... and no frame is handed to storage twice, whichever of the throttle's
+						// suppressed, cut or resumed recordings it belongs to
+						if f0, dup := stored[op.Seq]; dup && !op.Err {
+							c.Violation("frame-written-twice", "behind the throttle", fmt.Sprintf("frame %d is written to file %d and again to file %d", op.Seq, f0, nfile))
+							return
+						}
+						if !op.Err {
+							stored[op.Seq] = nfile
+						}
 					}
 				}
+				c.Count("frames_stored_behind_the_throttle", int64(len(stored)))
 			}
 			// C02: when the budget covers a minimum recording the file opens with the processor's
 			// first pre-trigger frame, on the frame of the trigger
